@@ -8,9 +8,10 @@
 (*                                                                                  *)
 (* States: ("val", type, v)  ->  ("pair", type, v, w)   for w in Vals(type)         *)
 (*                           ->  ("mut",  type, v, m)   for m in Mutants(type,v,K)  *)
-(* Names = types whose mutants are explored; PairNames = types whose pairs are.     *)
+(* Names = types whose mutants are explored; PairNames = types whose pairs are;     *)
+(* FullNames = types explored on all of Vals (the others: minimal + richest value).  *)
 EXTENDS CodecMut
-CONSTANTS Names, PairNames, K
+CONSTANTS Names, PairNames, FullNames, K
 VARIABLES st, tn, v, w, m
 
 NoMut == [cls |-> "none", in |-> <<>>]
@@ -23,7 +24,10 @@ HasRest(ty) ==
     [] ty.k \in {"seq", "fseq", "opt"} -> HasRest(ty.of)
     [] OTHER -> FALSE
 
-Init == /\ st = "val" /\ tn \in TypeNames /\ v \in Vals(Schema[tn]) /\ w = <<>> /\ m = NoMut
+\* every schema type is round-tripped: on all of Vals for the types of FullNames, on the minimal and the richest value otherwise
+Init == /\ st = "val" /\ tn \in TypeNames
+        /\ v \in (IF tn \in FullNames THEN Vals(Schema[tn]) ELSE {MinV(Schema[tn]), MaxV(Schema[tn])})
+        /\ w = <<>> /\ m = NoMut
 Next == /\ st = "val"
         /\ \/ /\ tn \in PairNames /\ st' = "pair" /\ w' \in Vals(Ty) /\ m' = m
            \/ /\ tn \in Names /\ st' = "mut" /\ m' \in Mutants(Ty, v, K) /\ w' = w
